@@ -1,4 +1,8 @@
+import os, importlib.util
 from vlib import Job
+_spec = importlib.util.spec_from_file_location('c01jobs', os.path.join(os.path.dirname(__file__), '..', 'C01', 'jobs.py'))
+_c01 = importlib.util.module_from_spec(_spec); _spec.loader.exec_module(_c01)
+ksjob = _c01.ksjob
 
 META = dict(
     bounds='sequential: every reachable set of <= NHELD (2 quick / 3 thorough) held ranges built by the real try_lock_wait2 from symbolic 64-bit (offset,length) pairs, '
@@ -24,4 +28,7 @@ def jobs(tier):
                      small=[0, 1, 2, 3, 4, 8, 2**64 - 1, 2**64 - 2], timeout=900 if q else 7000, mem_gb=16,
                      desc='%s from every reachable state of <= %d held ranges%s' % (names[op], n, ', then a probe' if probe else ''),
                      bounds='64-bit symbolic ranges, %d held + 1 op%s' % (n, ' + 1 probe' if probe else '')))
+    # wake-up half: waiters on a conflicting range proceed after unlock (no lost wake-up = no deadlock at the end of the run)
+    J.append(ksjob('wake_2t', 'C18/h_wake.cpp', 2, 7, ['FORCE_CONFLICT'], desc='2 lockers with overlapping ranges: the second waits and is woken by the unlock', shims=['rbtree.c'], timeout=900, unwind=4))
+    if not q: J.append(ksjob('wake_3t', 'C18/h_wake.cpp', 3, 10, ['FORCE_CONFLICT'], desc='3 lockers, symbolic ranges (0 and 1 overlap)', shims=['rbtree.c'], timeout=5000, unwind=5, mem_gb=30))
     return J
